@@ -28,8 +28,8 @@ Theorem C05_dot_is_whole_source : forall src, eval_sel SelWhole src = Some src.
 Proof. exact eval_sel_whole. Qed.
 
 (* ignored / unassigned fields keep what the target variable held *)
-Theorem C05_skipped_field_untouched : forall ea fr src o orr st rs st',
-  each_field ea (FSkip :: fr) src (o :: orr) st = Done (rs, st') -> exists rs', rs = o :: rs'.
+Theorem C05_skipped_field_untouched : forall ev ea fr src o orr st rs st',
+  each_field ev ea (FSkip :: fr) src (o :: orr) st = Done (rs, st') -> exists rs', rs = o :: rs'.
 Proof. exact each_field_skip. Qed.
 
 Print Assumptions C05_find_field_spec.
